@@ -27,10 +27,14 @@ MODELLED_NOT_VERIFIED = [
     "collection bound to a different namespace is outside the statement (documented: originals are migrated); histories never do it and the "
     "theorems carry it as the decidable hypothesis `Valid`",
 ]
-EXPLANATION = ("Theorems (Props/C11.lean): Inv (closure clauses a,c + allocation freshness) holds initially, is preserved by every valid op "
-               "(closed_step) and hence along every valid history (closed_reachable); label-functionality, injectivity and unification of the "
-               "migration map under the target's case rule (migrate_label_functional, migrate_injective_on_labels, migrate_unifies_equal_labels); "
-               "removed_tree_consistent.")
+EXPLANATION = ("Theorems (Props/C11.lean, about the definitions drv_c11 runs): closed_init; closed_step_partial - Inv (clauses a and c + allocation "
+               "discipline) is preserved by every valid op, proved for creation ops, append/insert/[]=/slice=/extend/+= (originals and TreeList "
+               "sources, both import strategies), + with a TreeList, read, new_tree, slicing, pop/del/remove, Tree copies, Tree.migrate/reconstruct "
+               "(both unify flags), matrix []=/new_sequence, DataSet.add/new_*/attach/detach; NOT for + with a plain list, TreeList copies, "
+               "TreeList/CharacterMatrix migrate/reconstruct, matrix copies, DataSet.unify_taxon_namespaces and DataSet.read (those are covered by the "
+               "correspondence and the oracle only); closed_reachable_partial / closed_from_init_partial (induction over histories); "
+               "removed_tree_consistent (clause c); clause b for single label resolutions: migrate_label_functional_partial, "
+               "migrate_unifies_equal_labels_partial, migrate_injective_on_labels_partial (not lifted to whole migrations with a memo).")
 
 LABEL_POOL = ["A", "B", "C", "D", "a", "b", "E", "Ab", "AB", "c_1", "x y", "'q'", "E", "A"]
 
